@@ -508,6 +508,46 @@ pub fn run(tier: &str, rec: &Recorder) -> RunOutput {
         }
         total.lock().unwrap().merge(&c);
     }
+    // --- stage 1b: every attribute the GraphML schema defines (and a few it does not), with extreme values,
+    //     injected into every start / empty tag of the minimal base document
+    {
+        let mut c = Counters::default();
+        let base = bs[3].1.clone();
+        let attrs = [
+            "id", "edgedefault", "parse.nodes", "parse.edges", "parse.maxindegree", "parse.maxoutdegree", "parse.nodeids", "parse.edgeids", "parse.order", "parse.indegree", "parse.outdegree", "source",
+            "target", "directed", "sourceport", "targetport", "for", "attr.name", "attr.type", "key", "xmlns", "xml:lang", "weight", "count", "size", "capacity",
+        ];
+        let values = ["", "0", "-1", "1", "18446744073709551615", "4611686018427387903", "9223372036854775808", "99999999999999999999999999", "1e999", "NaN", "true", "a", "&amp;", " "];
+        // positions just before the '>' or '/>' of every tag
+        let bytes = base.as_bytes();
+        let mut tag_ends: Vec<usize> = vec![];
+        let mut i = 0;
+        while i < bytes.len() {
+            if bytes[i] == b'<' && i + 1 < bytes.len() && bytes[i + 1] != b'/' {
+                let mut j = i;
+                while j < bytes.len() && bytes[j] != b'>' {
+                    j += 1;
+                }
+                let end = if j > 0 && bytes[j - 1] == b'/' { j - 1 } else { j };
+                tag_ends.push(end);
+                i = j;
+            }
+            i += 1;
+        }
+        for (ti, &pos) in tag_ends.iter().enumerate() {
+            for a in attrs {
+                for v in values {
+                    let doc = format!("{} {a}=\"{v}\"{}", &base[..pos], &base[pos..]);
+                    let case = format!("attr:{ti}:{a}:{v}");
+                    wd.enter(&case);
+                    c.inc("attribute_injections");
+                    check_doc(&doc, &case, SPEC_MENU[0], rec, &mut c);
+                    wd.leave();
+                }
+            }
+        }
+        total.lock().unwrap().merge(&c);
+    }
     // --- stage 2: pairs of byte faults on the short base B4
     {
         let doc = bs[3].1.as_bytes().to_vec();
